@@ -122,6 +122,7 @@ RULE_HASH = ("one evaluation = one seeded plan (1-2 tables; resize requests foll
              "distinct = distinct plan hash; non-trivial = the run held >= 2 live elements at some point")
 check("C03", "exploration",
       [dict(world="hash", mode=103, variants={"rel": 0.5, "asan": 0.5}, quick=4, thorough=60, min_mem_gib=2),
+       dict(world="hash", mode=104, variants={"rel": 0.5, "asan": 0.5}, quick=6000, thorough=400000),      # tables on cstl_hash_div / cstl_hash_mul passed by name, keys from the whole of size_t
        dict(world="hash", mode=3, variants=V_HASH, quick=80000, thorough=2400000)],
       RULE_HASH, ["src/hash.c", "include/cstl/hash.h"], stubs=HASH_STUBS,
       required_probes=["insert_mid_rehash", "find_mid_rehash", "erase_mid_rehash", "resize_while_pending", "resize_grow", "resize_shrink",
